@@ -80,8 +80,8 @@ type opSpec struct {
 	arity   []int
 }
 
-func q(tag string) opSpec          { return opSpec{entries: []string{tag}, arity: []int{-1}} }
-func qN(tag string, n int) opSpec  { return opSpec{entries: []string{tag}, arity: []int{n}} }
+func q(tag string) opSpec         { return opSpec{entries: []string{tag}, arity: []int{-1}} }
+func qN(tag string, n int) opSpec { return opSpec{entries: []string{tag}, arity: []int{n}} }
 func batch(tags ...string) opSpec {
 	o := opSpec{batch: true, entries: tags}
 	for range tags {
@@ -840,7 +840,8 @@ func main() {
 		{name: "lru2-three-stmts", hosts: 1, max: 2, threads: [][]opSpec{T(q("A")), T(q("B")), T(q("C"))}, prepFaults: 1, unprep: true, t: [2]int{2, 2}},
 		{name: "lru2-three-stmts-4-ops", hosts: 1, max: 2, threads: [][]opSpec{T(q("A")), T(q("B"), q("A")), T(q("C"))}, prepFaults: 1, unprep: true, t: [2]int{0, 2}},
 		// 4. two hosts share the cache; ids are host specific
-		{name: "two-hosts-2+1", hosts: 2, threads: [][]opSpec{T(q("A"), q("A")), T(q("A"))}, prepFaults: 1, unprep: true, t: [2]int{2, 3}},
+		{name: "two-hosts-2-threads", hosts: 2, threads: [][]opSpec{T(q("A")), T(q("A"))}, prepFaults: 1, unprep: true, lateStale: true, t: [2]int{2, 3}},
+		{name: "two-hosts-2+1", hosts: 2, threads: [][]opSpec{T(q("A"), q("A")), T(q("A"))}, prepFaults: 1, unprep: true, t: [2]int{2, 2}},
 		{name: "two-hosts-2x2", hosts: 2, threads: [][]opSpec{T(q("A"), q("A")), T(q("A"), q("A"))}, prepFaults: 1, unprep: true, t: [2]int{0, 2}},
 		{name: "two-hosts-3-threads-lru1", hosts: 2, max: 1, threads: [][]opSpec{T(q("A")), T(q("A")), T(q("A"))}, prepFaults: 1, unprep: true, t: [2]int{2, 2}},
 		// 5. batches with prepared entries
